@@ -165,6 +165,11 @@ def random_cases(ctx, rng, n_cases, first_id):
                     gen=dict(gap_p=rng.choice([0.1, 0.3, 0.5]), flat_p=rng.choice([0.05, 0.2]), step=rng.choice([2, 3]),
                              wick=rng.choice([1, 2, 3]), start=200, floor=40),
                     obs_every=every, full_samples=sorted(rng.sample(range(1, steps + 1), min(4, steps))), src='T')
+        # the session's configured warm-up (`warm_up_candles`, in candles of the biggest timeframe) differs from the length of
+        # the passed warm-up series - mostly SHORTER than what is passed (the passed series is aligned to every timeframe)
+        if W:
+            shorter = [w for w in range(1, 11) if w * big < W]
+            case['warm_cfg'] = rng.choice(shorter) if shorter and rng.random() < 0.75 else rng.randint(1, 10)
         if c % 6 == 2:            # price level ~30000 with gaps of 0.125 / 0.25 (below numpy's default closeness tolerance)
             case['unit'] = 0.125
             case['gen'] = dict(gap_p=rng.choice([0.3, 0.5]), flat_p=0.1, step=2, wick=rng.choice([1, 2]), start=240000, floor=1000)
@@ -205,6 +210,29 @@ def closefill_cases(first_id):
                 # minute 14 and 29 are the last minutes of a 3m / 5m / 15m window at once (entry, then take-profit)
                 case = dict(id=first_id + len(cases), fast=fast, syms=[B], trading=[(B, ttf)], data=[(B, t) for t in dtfs],
                             W=W, N=47, seed=0, pattern={"14": 3, "29": 3, "34": 3}, src='T-closefill')
+                case['chunk'] = chunk_of(case)
+                cases.append(case)
+    return cases
+
+
+def longwarm_cases(first_id, seed):
+    """warm-up series LONGER than `warm_up_candles x biggest timeframe` (and aligned to every route timeframe) for route
+    sets whose timeframes do not divide each other: every stored / readable row is judged against the windows counted
+    from the first PASSED warm-up minute"""
+    from ..drivers.candle_runs import TFMIN, chunk_of
+    cases = []
+    sets = [('3m', ['5m']), ('5m', ['3m']), ('45m', ['1h']), ('1h', ['45m']), ('2h', ['3h']), ('1m', ['3m', '5m']), ('30m', ['45m'])]
+    for j, (ttf, dtfs) in enumerate(sets):
+        mins = [TFMIN[ttf]] + [TFMIN[t] for t in dtfs]
+        L, big = lcm(mins), max(mins)
+        for fast in (False, True):
+            for wc in ((4, 1) if j % 2 == 0 else (2, 7)):
+                W = L * (wc * big // L + 1 + (j % 2))                      # aligned, and longer than wc * big
+                N = TFMIN[ttf] * 6 + 7 * (j + 1) % 11 + (0 if fast else 2)
+                case = dict(id=first_id + len(cases), fast=fast, syms=[B], trading=[(B, ttf)], data=[(B, t) for t in dtfs],
+                            W=W, N=N, seed=seed * 31 + len(cases), warm_cfg=wc,
+                            policy=dict(seed=seed + len(cases), p_edit_on_reduced=0, entry_every=3),
+                            gen=dict(gap_p=0.3, start=200, floor=40), obs_every=1, full_samples=[1, 2], src='T-longwarm')
                 case['chunk'] = chunk_of(case)
                 cases.append(case)
     return cases
@@ -353,6 +381,7 @@ def run(ctx):
     cases += random_cases(ctx, rng, n_t, first_id=cid + 1)
     cf = closefill_cases(first_id=cid + n_t + 1000)
     cases += cf
+    cases += longwarm_cases(first_id=cid + n_t + 2000, seed=ctx.seed)
     traces = run_cases(ctx, cases)
     ctx.log("drivers: %d real backtests done" % len(traces))
     for t in traces:
@@ -376,6 +405,17 @@ def run(ctx):
             ctx.nontrivial.add(key)
         if t['case'].get('src') == 'R':
             realized.add((t['hdr']['mode'], tuple(t['hdr']['routes']), tuple(s['fill_minutes'])))
+    from ..drivers.candle_runs import TFMIN as _TF
+    lw = {"step": 0, "fast": 0}
+    for t in traces:
+        cs = t['case']
+        tfm = [_TF[tf] for _, tf in cs.get('trading', []) + cs.get('data', [])]
+        if cs.get('warm_cfg') and cs['warm_cfg'] * max(tfm) < cs['W'] and any(a % b and b % a for a in tfm for b in tfm):
+            lw[t['hdr']['mode']] += 1
+    if min(lw.values()) < 5:
+        raise Machinery("vacuity: too few runs whose warm-up is longer than warm_up_candles x biggest timeframe with "
+                        "non-dividing timeframes: %r" % (lw,))
+    ctx.coverage["runs_with_warmup_longer_than_configured_and_non_dividing_timeframes"] = lw
     nclose = sum(1 for t in traces if t['case'].get('src') == 'T-closefill' and
                  any(m % 15 == 14 for m in t['stats']['fill_minutes']))
     if nclose < len(cf) // 2:
